@@ -69,6 +69,11 @@ func comps(extra map[string]string) map[string]string {
 }
 
 var props = map[string]propCfg{
+	"C16": {World: "els", QuickRuns: 1500, ThoroughRuns: 120000,
+		Rule: "one run = 2..16 operations between a publisher, a floodfill store and 3 clients: encrypt a reference-built LeaseSet2 (shapes, key forms and cookies drawn per run) to a client's X25519 key under a scripted entropy stream (optionally faulted: short reads, stream restart = VM clone, all-zero / all-0xFF output, reader error during key generation), corrupt a stored ciphertext (one bit/byte in ephemeral key, nonce, body or tag), truncate/extend it, fetch and open it with the right or a wrong client's key (all accepted key forms), in the thorough tier flip one bit at every byte position of a ciphertext; and blind a destination on two nodes, each in its own synctest bubble with its own instant (either side of UTC midnight, seconds to days of skew) and fixed time zone (UTC-12..UTC+14). Non-trivial = at least one fault / corruption / mis-delivery / node boot fired; distinct = distinct run fingerprints.",
+		Assumptions: []string{"kdf.DeriveBlindingFactor (dependency) is the derived factor the property speaks of; the UTC calendar day is computed independently of the time package", "reader errors are injected only on the read that goes through an io.Reader argument (ephemeral key generation): crypto/rand.Read aborts the process when a replaced Reader fails", "a ciphertext shorter than 61 bytes cannot be wrapped in an EncryptedLeaseSet at all and is counted as a probe"},
+		Components:  comps(map[string]string{"entropy": "simulated: crypto/rand.Reader wrapper over the per-run ChaCha8 stream with fault injection", "floodfill store": "simulated: in-memory store with bit rot, truncation, extension, mis-delivery", "clocks": "simulated: one synctest bubble per node boot, per-node time zone", "X25519 / HKDF / ChaCha20-Poly1305 / blinding KDF": "real code (dependencies)"}),
+		TimeoutQuick: 5 * time.Minute, TimeoutThoro: 40 * time.Minute},
 	"C05": {World: "auth", QuickRuns: 3000, ThoroughRuns: 300000,
 		Rule: "one run = one traffic history: 1..40 messages (RouterInfo, LeaseSet, LeaseSet2, MetaLeaseSet, EncryptedLeaseSet, bare OfflineSignature) of up to 8 honest publisher identities of every verifiable signature type, built by the reference encoder and signed with Go's standard crypto, delivered to a floodfill actor (library: parse + Verify) through a transport that records all traffic and applies 0..3 scripted faults per message: bit flips and byte rewrites placed by the field map, junk inside a mapping's declared size, bytes after the signature, signature swap (random / zero / another message's), key substitution, offline-block forgery (random / zero offline signature, attacker-owned transient key), offline-block transplant from a Byzantine identity, store-type confusion, replay. Oracle: library accepts => the reference verifier accepts the raw delivered bytes. Non-trivial = at least one fault fired; distinct = distinct run fingerprints.",
 		Assumptions: []string{"soundness direction only: 'reference accepts, library rejects' is not judged here (C06/C02)", "the reference verifier states exactly three facts: which key (right-justified in the 384-byte block, or the blinded key), which bytes (consumed minus trailing signature, with store-type prefix 3/5/7), and the offline chain; for signature type 8 it accepts Ed25519ph and pure Ed25519 (the question is whose key, not which variant)", "honest messages carry no fault; the evidence reports how often library and reference agree on them"},
